@@ -352,6 +352,7 @@ func c03Gen(dstKinds, srcKinds []string, strategies []dm.Strategy) func(t *rapid
 			if !strings.HasSuffix(dst, "-struct") {
 				// (every key type: for most of them the node keeps a list it creates in a map[interface{}]...)
 				o.KeyTypes = []string{"string", "int32", "string", "int32", "int8", "int64", "uint16", "uint64", "boolean"}
+				o.Types = append(o.Types, "enumeration")
 			}
 		}
 		if strings.HasSuffix(dst, "-struct") {
